@@ -39,6 +39,9 @@ theorem byteAt_nat (b : Bytes) (i : Nat) (c : UInt8) (h : b[i]? = some c) : byte
 
 theorem ok_bind {α β : Type} (a : α) (f : α → R β) : ((Except.ok a : R α) >>= f) = f a := rfl
 
+theorem bind_ok_fst {α β : Type} (x : R (α × β)) : (x >>= fun a => (Except.ok a.1 : R α)) = x.map Prod.fst := by
+  cases x <;> rfl
+
 theorem getByte_nat (b : Bytes) (j : Nat) : getByte b (j : Int) = liftB b[j]? := by
   unfold getByte len byteAt
   by_cases h : j < b.length
@@ -230,5 +233,141 @@ theorem searchLoop_tie (t p : Bytes) (tbl : List Nat) (F : Int × List Int → I
     cases searchStep p tbl c i j ret with
     | error e => rfl
     | ok s => exact ih (i + 1) s.1 s.2 hd'
+
+/-! ### Horspool -/
+
+/-- `skip = []; for k in range(256): skip.append(m)` -/
+theorem foldl_append_const (m : Int) (l : List Int) (acc : List Int) :
+    List.foldl (fun (sk : List Int) (_ : Int) => sk ++ [m]) acc l = acc ++ List.replicate l.length m := by
+  induction l generalizing acc with
+  | nil => simp
+  | cons x xs ih =>
+    rw [List.foldl_cons, ih, List.length_cons, List.replicate_succ, List.append_assoc]; rfl
+
+theorem range_length (n : Nat) : (Py.range (n : Int)).length = n := by
+  unfold Py.range; simp
+
+theorem setItem_nat (t : List Nat) (j : Nat) (v : Nat) (h : j < t.length) :
+    setItem (t.map Int.ofNat) (j : Int) (v : Int) = .ok ((t.set j v).map Int.ofNat) := by
+  unfold setItem len setAt
+  rw [if_pos ⟨by omega, by simp; omega⟩]
+  simp [List.map_set]
+
+/-- one pass of `for k in range(m - 1): skip[pattern[k]] = m - k - 1` (the model, one step) -/
+def skipStep (pat : Bytes) (sk : List Nat) (k : Nat) : List Nat :=
+  match pat[k]? with
+  | some c => sk.set c.toNat (pat.length - k - 1)
+  | none => sk
+
+theorem skipStep_length (pat : Bytes) (sk : List Nat) (k : Nat) : (skipStep pat sk k).length = sk.length := by
+  unfold skipStep; cases pat[k]? <;> simp
+
+theorem skipLoop_tie (pat : Bytes) (G : List Int → Int → R (List Int))
+    (hG : ∀ (sk : List Nat) (k : Nat), sk.length = 256 → k < pat.length - 1 →
+      G (sk.map Int.ofNat) (k : Int) = .ok ((skipStep pat sk k).map Int.ofNat)) :
+    ∀ (l : List Nat) (sk : List Nat), sk.length = 256 → (∀ k ∈ l, k < pat.length - 1) →
+      List.foldlM G (sk.map Int.ofNat) (l.map Int.ofNat) = .ok ((l.foldl (skipStep pat) sk).map Int.ofNat) := by
+  intro l
+  induction l with
+  | nil => intro sk _ _; rfl
+  | cons k l ih =>
+    intro sk hs hl
+    rw [List.map_cons, List.foldlM_cons, show Int.ofNat k = (k : Int) from rfl,
+      hG sk k hs (hl k (List.mem_cons_self ..)), ok_bind, List.foldl_cons]
+    exact ih _ (by rw [skipStep_length, hs]) (fun k' hk' => hl k' (List.mem_cons_of_mem _ hk'))
+
+theorem bmhSkip_eq (pat : Bytes) :
+    bmhSkip pat = (List.range (pat.length - 1)).foldl (skipStep pat) (List.replicate 256 pat.length) := rfl
+
+/-- the inner loop `while j >= 0 and text[i] == pattern[j]: j -= 1; i -= 1` started at `j = j1 - 1` with fuel `j + 2` -/
+theorem inner_tie (text pat : Bytes) (cond : Int × Int → R Bool) (body : Int × Int → R (Int × Int))
+    (hc : ∀ (j i : Int), cond (j, i) =
+      if j ≥ 0 then (getByte text i >>= fun a => getByte pat j >>= fun b => .ok (decide (a = b))) else .ok false)
+    (hb : ∀ (j i : Int), body (j, i) = .ok (j - 1, i - 1)) :
+    ∀ (j1 : Nat) (i : Int), whileLoopM cond body (j1 + 1) ((j1 : Int) - 1, i) =
+      (bmhInner text pat j1 i).map (fun r => ((r.1 : Int) - 1, r.2)) := by
+  intro j1
+  induction j1 with
+  | zero =>
+    intro i
+    unfold whileLoopM bmhInner
+    rw [hc, if_neg (by omega)]; rfl
+  | succ j1 ih =>
+    intro i
+    unfold whileLoopM bmhInner
+    rw [hc, if_pos (by omega), getByte_pyIdx]
+    have e : ((j1 + 1 : Nat) : Int) - 1 = (j1 : Int) := by omega
+    rw [e, getByte_nat]
+    cases pyIdx text i with
+    | none => cases pat[j1]? <;> rfl
+    | some a =>
+      cases pat[j1]? with
+      | none => rfl
+      | some b =>
+        simp only [liftB_some, ok_bind, u8_eq_iff, beq_iff_eq]
+        by_cases hab : a = b
+        · simp only [hab, decide_true, if_true]
+          rw [hb, ok_bind]
+          exact ih (i - 1)
+        · simp only [hab, decide_false, if_false]
+          simp only [Except.map, Bool.false_eq_true, if_false]
+          rw [e]
+
+/-- one pass of the body of `while k < n` (the model, one step): returns the new `(offsets, k)` -/
+def outerStep (text pat : Bytes) (skip : List Nat) (k : Int) (offs : List Int) : R (List Int × Int) :=
+  match bmhInner text pat pat.length k with
+  | .error e => .error e
+  | .ok (j1, i) =>
+    let offs := if j1 == 0 then offs ++ [i + 1] else offs
+    match pyIdx text k with
+    | none => .error .index
+    | some c =>
+      match skip[c.toNat]? with
+      | none => .error .index
+      | some s => .ok (offs, k + s)
+
+theorem bmhOuter_succ (text pat : Bytes) (skip : List Nat) (fuel : Nat) (k : Int) (offs : List Int) :
+    bmhOuter text pat skip (fuel + 1) k offs =
+      if k < text.length then
+        outerStep text pat skip k offs >>= fun s => bmhOuter text pat skip fuel s.2 s.1
+      else .ok offs := by
+  unfold outerStep
+  rw [bmhOuter]
+  split
+  · cases bmhInner text pat pat.length k with
+    | error e => rfl
+    | ok r =>
+      obtain ⟨j1, i⟩ := r
+      simp only []
+      cases pyIdx text k with
+      | none => rfl
+      | some c =>
+        simp only []
+        cases skip[c.toNat]? with
+        | none => rfl
+        | some s => rfl
+  · rfl
+
+theorem outer_tie (text pat : Bytes) (skip : List Nat) (cond : List Int × Int → R Bool)
+    (body : List Int × Int → R (List Int × Int))
+    (hc : ∀ offs k, cond (offs, k) = .ok (decide (k < (text.length : Int))))
+    (hb : ∀ offs k, body (offs, k) = outerStep text pat skip k offs) :
+    ∀ (fuel : Nat) (k : Int) (offs : List Int),
+      (whileLoopM cond body fuel (offs, k)).map Prod.fst = bmhOuter text pat skip fuel k offs := by
+  intro fuel
+  induction fuel with
+  | zero => intro k offs; rfl
+  | succ fuel ih =>
+    intro k offs
+    rw [bmhOuter_succ]
+    unfold whileLoopM
+    rw [hc, ok_bind]
+    by_cases hk : k < (text.length : Int)
+    · simp only [hk, decide_true, if_true]
+      rw [hb]
+      cases outerStep text pat skip k offs with
+      | error e => rfl
+      | ok s => exact ih s.2 s.1
+    · simp only [hk, decide_false, if_false, Bool.false_eq_true]; rfl
 
 end Acra.Lemmas.SrcTieSearch
